@@ -614,6 +614,9 @@ def gen_plan(g):
     if mode == 'threads':
         plan['preempt_seed'] = rng.randint(0, 10 ** 6)
         plan['switch_p'] = rng.choice([0.05, 0.3, 0.3, 1.0])
+        if rng.random() < 0.25:
+            # finer interleaving: hand-overs at library source lines
+            plan['line_p'] = rng.choice([0.005, 0.02, 0.1])
     return plan
 
 
